@@ -499,19 +499,41 @@ func ruleR011(c *Ctx) {
 		c.Undecided("forwarders", token.NoPos, "expected the two verified forwarders genFuncList and genCodeMap, found %d", len(fwd))
 	}
 	gens := c.generatorFuncs(a, fwd)
+	helpers := c.evalHelpers(a)
 	for _, gi := range gens {
 		info := gi.pkg.TypesInfo
 		gname := declName(gi.pkg, gi.decl)
 		for _, p := range gi.problems {
 			c.Undecided(gname, gi.decl.Pos(), "%s", p)
 		}
+		// a call of an evaluation helper that is handed generated children
+		helperOf := func(call *ast.CallExpr) *evalHelper {
+			cal := Callee(info, call)
+			if cal == nil {
+				return nil
+			}
+			h := helpers[cal.Origin()]
+			if h == nil {
+				return nil
+			}
+			for _, hc := range h.calls {
+				if hc.param < len(call.Args) {
+					if _, _, ok := gi.childOf(info, call.Args[hc.param]); ok {
+						return h
+					}
+				}
+			}
+			return nil
+		}
 		isChildCall := func(n ast.Node) bool {
 			call, ok := n.(*ast.CallExpr)
 			if !ok {
 				return false
 			}
-			_, _, ok = gi.childOf(info, call.Fun)
-			return ok
+			if _, _, ok = gi.childOf(info, call.Fun); ok {
+				return true
+			}
+			return helperOf(call) != nil
 		}
 		// every literal with a Stack as first parameter
 		ast.Inspect(gi.decl.Body, func(n ast.Node) bool {
@@ -530,17 +552,61 @@ func ruleR011(c *Ctx) {
 			}
 			stackKey, _ := exprKey(info, lit.Type.Params.List[0].Names[0])
 			w := &frameWalker{c: c, info: info, stackKey: stackKey, push: a.push, frame: a.frame}
+			w.resultLen = func(call *ast.CallExpr, result int) (ast.Expr, bool) {
+				if h := helperOf(call); h != nil {
+					if p, ok := h.lenResult[result]; ok && p < len(call.Args) {
+						return call.Args[p], true
+					}
+				}
+				return nil, false
+			}
 			w.onCall = func(call *ast.CallExpr, delta lin) {
 				off, name, ok := gi.childOf(info, call.Fun)
+				viaHelper := false
 				if !ok {
-					return
+					h := helperOf(call)
+					if h == nil {
+						return
+					}
+					hkey := fmt.Sprintf("%s#child-call[%d]:via %s", gname, ordinalIn(gi.decl, call, isChildCall), h.fn.Name())
+					if len(h.problems) > 0 {
+						c.Undecided(hkey, call.Pos(), "evaluation helper %s is not understood: %s", h.fn.Name(), strings.Join(h.problems, "; "))
+						return
+					}
+					if h.loopNet != "" {
+						c.Violation(hkey, call.Pos(), "the evaluation helper %s calls the generated children inside a loop that also changes the stack (net %s per iteration): from the second child on they run with a stack size their compile time context does not know", h.fn.Name(), h.loopNet)
+						return
+					}
+					if h.stackParam >= len(call.Args) || !w.isStackVar(call.Args[h.stackParam]) {
+						c.Violation(hkey, call.Pos(), "the evaluation helper %s is not handed the enclosing closure's own stack parameter", h.fn.Name())
+						return
+					}
+					// every call the helper makes, at the caller's depth plus the helper's own pushes
+					for _, hc := range h.calls {
+						if hc.param >= len(call.Args) {
+							continue
+						}
+						o2, n2, ok2 := gi.childOf(info, call.Args[hc.param])
+						if !ok2 {
+							continue
+						}
+						if !hc.viaOwn {
+							c.Violation(hkey, call.Pos(), "the evaluation helper %s calls child %s with a stack other than the one it was handed", h.fn.Name(), n2)
+							return
+						}
+						off, name, ok, viaHelper = o2, n2+" (in "+h.fn.Name()+")", true, true
+						delta = delta.add(hc.delta)
+					}
+					if !ok {
+						return
+					}
 				}
 				key := fmt.Sprintf("%s#child-call[%d]:%s", gname, ordinalIn(gi.decl, call, isChildCall), name)
 				if !off.known {
 					c.Undecided(key, call.Pos(), "context of child %s unknown", name)
 					return
 				}
-				if len(call.Args) < 1 || !w.isStackVar(call.Args[0]) {
+				if !viaHelper && (len(call.Args) < 1 || !w.isStackVar(call.Args[0])) {
 					c.Violation(key, call.Pos(), "generated child %s (%s) is not called with the enclosing closure's own stack parameter but with %s", name, off, nodeStr(c.Fset, firstArg(call)))
 					return
 				}
@@ -695,6 +761,7 @@ func ruleR011b(c *Ctx) {
 			return ok && isCallTo(info, cc, a.frame)
 		}
 	}
+	helpers := c.evalHelpers(a)
 	forEachFuncBody(c.RepoPkgs, func(pkg *packages.Package, fn ast.Node, body *ast.BlockStmt) {
 		info := pkg.TypesInfo
 		// stack variables on which Push/CreateFrame are called directly in this body
@@ -731,6 +798,16 @@ func ruleR011b(c *Ctx) {
 			captured := v.captured
 			obj := v
 			w := &frameWalker{c: c, info: info, stackKey: key, push: a.push, frame: a.frame}
+			w.resultLen = func(call *ast.CallExpr, result int) (ast.Expr, bool) {
+				if cal := Callee(info, call); cal != nil {
+					if h := helpers[cal.Origin()]; h != nil && len(h.problems) == 0 {
+						if p, ok := h.lenResult[result]; ok && p < len(call.Args) {
+							return call.Args[p], true
+						}
+					}
+				}
+				return nil, false
+			}
 			w.onFrame = func(call *ast.CallExpr, delta lin, nn lin) {
 				key := fmt.Sprintf("%s#CreateFrame[%d]", c.FuncName(fn), ordinalIn(root, call, isFrameCall(info)))
 				if delta.eq(nn) {
